@@ -47,18 +47,27 @@ type c09Col struct {
 // a key: one entry per sorting column, nil = null
 type c09Key []*int64
 
+// a non-key column of the row schema; its name decides where its leaf
+// columns lie relative to the sorting columns (fields are ordered by name)
+type c09Extra struct {
+	Name  string `json:"name"`
+	Shape string `json:"shape"`
+}
+
 type c09Case struct {
-	Kind     string     `json:"kind"`
-	Cols     []c09Col   `json:"cols"`
-	Inputs   [][]c09Key `json:"inputs"`
-	Chunks   [][]int    `json:"chunks,omitempty"`   // per input: rows returned by successive ReadRows calls of the source
-	EOFData  bool       `json:"eof_data,omitempty"` // the sources return io.EOF together with their last rows
-	Batches  []int      `json:"batches"`            // lengths of the slices handed to ReadRows, cycled
-	Backing  []string   `json:"backing,omitempty"`  // groups: per input "buffer" or "file"
-	PageBuf  int        `json:"page_buf,omitempty"` // groups: PageBufferSize of the input files
-	Dedupe   bool       `json:"dedupe,omitempty"`
-	NoRefine bool       `json:"no_refine,omitempty"` // groups: VerifSetDisableMergeRefinement(true)
-	Note     string     `json:"note,omitempty"`
+	Kind      string     `json:"kind"`
+	Cols      []c09Col   `json:"cols"`
+	Extras    []c09Extra `json:"extras,omitempty"`     // non-key columns besides the payload
+	ExtraSeed int64      `json:"extra_seed,omitempty"` // their values are a function of (seed, input, seq)
+	Inputs    [][]c09Key `json:"inputs"`
+	Chunks    [][]int    `json:"chunks,omitempty"`   // per input: rows returned by successive ReadRows calls of the source
+	EOFData   bool       `json:"eof_data,omitempty"` // the sources return io.EOF together with their last rows
+	Batches   []int      `json:"batches"`            // lengths of the slices handed to ReadRows, cycled
+	Backing   []string   `json:"backing,omitempty"`  // groups: per input "buffer" or "file"
+	PageBuf   int        `json:"page_buf,omitempty"` // groups: PageBufferSize of the input files
+	Dedupe    bool       `json:"dedupe,omitempty"`
+	NoRefine  bool       `json:"no_refine,omitempty"` // groups: VerifSetDisableMergeRefinement(true)
+	Note      string     `json:"note,omitempty"`
 }
 
 func c09K(vs ...any) c09Key {
@@ -186,24 +195,226 @@ func b01(b bool) string {
 }
 
 // ---- schema and rows -----------------------------------------------------
+//
+// The row schema is a parquet.Group (fields ordered by name) with the sorting
+// columns k0, k1, ..., the payload p_in, p_seq, p_tag and the extra columns of
+// the case.  The names of the extras place their leaf columns before the first
+// key ("a.."), between k0 and k1 ("k0x.."), between the keys and the payload
+// ("m..") or after the payload ("z.."); their shapes cover required / optional
+// leaves, repeated leaves, LIST-annotated groups, groups (required, optional,
+// repeated) and a repeated column nested in a repeated group.  A row of a
+// repeated column holds 0..3 values, so the position of the values of the
+// later columns within the row differs from their column index.
 
-type c09Schema struct {
-	cols    []c09Col
-	schema  *parquet.Schema
-	sorting []parquet.SortingColumn
-	compare func(parquet.Row, parquet.Row) int
+// one value of a leaf column of a row, as the harness writes and expects it
+type c09Val struct {
+	Null     bool
+	V        int64
+	Rep, Def int
 }
 
-func c09NewSchema(cols []c09Col) *c09Schema {
-	g := parquet.Group{}
-	s := &c09Schema{cols: cols}
+type c09LeafDef struct {
+	path           []string
+	maxRep, maxDef int
+	str            bool // byte array leaf: the value is the decimal text of V prefixed with "s"
+}
+
+const (
+	c09RoleKey = iota
+	c09RoleIn
+	c09RoleSeq
+	c09RoleTag
+	c09RoleExtra
+)
+
+type c09Field struct {
+	name   string
+	node   parquet.Node
+	leaves []c09LeafDef
+	role   int
+	idx    int // key: index of the sorting column; extra: index in Extras
+	shape  string
+	first  int // column index of the first leaf
+}
+
+type c09Schema struct {
+	cols      []c09Col
+	extras    []c09Extra
+	extraSeed int64
+	fields    []c09Field // ordered by name = column order
+	numLeaves int
+	keyLeaf   []int // leaf column of sorting column j
+	inLeaf    int
+	seqLeaf   int
+	tagLeaf   int
+	bad       string // the schema the library built does not have the leaves the harness expects
+	schema    *parquet.Schema
+	sorting   []parquet.SortingColumn
+	compare   func(parquet.Row, parquet.Row) int
+}
+
+var c09ExtraShapes = []string{"required", "optional", "string", "repeated", "list", "optlist", "group", "optgroup", "repgroup", "rep2"}
+
+// positions of an extra field: prefix of its name
+var c09ExtraPos = []string{"a", "k0x", "m", "z"}
+
+func c09ExtraField(name, shape string) (node parquet.Node, leaves []c09LeafDef, ok bool) {
+	i64 := func() parquet.Node { return parquet.Int(64) }
+	switch shape {
+	case "required":
+		return i64(), []c09LeafDef{{path: []string{name}}}, true
+	case "optional":
+		return parquet.Optional(i64()), []c09LeafDef{{path: []string{name}, maxDef: 1}}, true
+	case "string":
+		return parquet.String(), []c09LeafDef{{path: []string{name}, str: true}}, true
+	case "repeated":
+		return parquet.Repeated(i64()), []c09LeafDef{{path: []string{name}, maxRep: 1, maxDef: 1}}, true
+	case "list":
+		return parquet.List(i64()), []c09LeafDef{{path: []string{name, "list", "element"}, maxRep: 1, maxDef: 1}}, true
+	case "optlist":
+		return parquet.Optional(parquet.List(i64())), []c09LeafDef{{path: []string{name, "list", "element"}, maxRep: 1, maxDef: 2}}, true
+	case "group":
+		return parquet.Group{"a": i64(), "b": parquet.Optional(parquet.String())},
+			[]c09LeafDef{{path: []string{name, "a"}}, {path: []string{name, "b"}, maxDef: 1, str: true}}, true
+	case "optgroup":
+		return parquet.Optional(parquet.Group{"a": i64(), "b": parquet.Optional(i64())}),
+			[]c09LeafDef{{path: []string{name, "a"}, maxDef: 1}, {path: []string{name, "b"}, maxDef: 2}}, true
+	case "repgroup":
+		return parquet.Repeated(parquet.Group{"a": i64(), "b": parquet.Optional(i64())}),
+			[]c09LeafDef{{path: []string{name, "a"}, maxRep: 1, maxDef: 1}, {path: []string{name, "b"}, maxRep: 1, maxDef: 2}}, true
+	case "rep2":
+		return parquet.Repeated(parquet.Group{"x": parquet.Repeated(i64())}),
+			[]c09LeafDef{{path: []string{name, "x"}, maxRep: 2, maxDef: 2}}, true
+	}
+	return nil, nil, false
+}
+
+// pseudo-random choices derived from (seed, input, seq, field): the values of
+// the extra columns of a row can be recomputed from the identity of the row
+type c09Hash struct{ x uint64 }
+
+func c09NewHash(seed int64, in, seq, field int) *c09Hash {
+	return &c09Hash{uint64(seed)*0x9E3779B97F4A7C15 ^ uint64(in+1)*0xBF58476D1CE4E5B9 ^ uint64(seq+1)*0x94D049BB133111EB ^ uint64(field+1)*0xD6E8FEB86659FD93}
+}
+
+func (h *c09Hash) next() uint64 {
+	h.x += 0x9E3779B97F4A7C15
+	z := h.x
+	z = (z ^ (z >> 30)) * 0xBF58476D1CE4E5B9
+	z = (z ^ (z >> 27)) * 0x94D049BB133111EB
+	return z ^ (z >> 31)
+}
+
+func (h *c09Hash) intn(n int) int { return int(h.next() % uint64(n)) }
+
+// values in the range of the keys the generators use (and beyond, both signs)
+func (h *c09Hash) val() int64 { return int64(h.next()%20001) - 6000 }
+
+// c09ExtraVals: the values of the leaves of one extra field in one row.
+func c09ExtraVals(shape string, h *c09Hash) [][]c09Val {
+	rep := func(e int) int {
+		if e == 0 {
+			return 0
+		}
+		return 1
+	}
+	switch shape {
+	case "required", "string":
+		return [][]c09Val{{{V: h.val()}}}
+	case "optional":
+		if h.intn(3) == 0 {
+			return [][]c09Val{{{Null: true}}}
+		}
+		return [][]c09Val{{{V: h.val(), Def: 1}}}
+	case "repeated", "list":
+		n := h.intn(4)
+		if n == 0 {
+			return [][]c09Val{{{Null: true}}}
+		}
+		vs := make([]c09Val, n)
+		for e := range vs {
+			vs[e] = c09Val{V: h.val(), Rep: rep(e), Def: 1}
+		}
+		return [][]c09Val{vs}
+	case "optlist":
+		n := h.intn(5) - 1 // -1: null list, 0: empty list
+		if n <= 0 {
+			return [][]c09Val{{{Null: true, Def: n + 1}}}
+		}
+		vs := make([]c09Val, n)
+		for e := range vs {
+			vs[e] = c09Val{V: h.val(), Rep: rep(e), Def: 2}
+		}
+		return [][]c09Val{vs}
+	case "group":
+		a := c09Val{V: h.val()}
+		if h.intn(3) == 0 {
+			return [][]c09Val{{a}, {{Null: true}}}
+		}
+		return [][]c09Val{{a}, {{V: h.val(), Def: 1}}}
+	case "optgroup":
+		if h.intn(3) == 0 {
+			return [][]c09Val{{{Null: true}}, {{Null: true}}}
+		}
+		a := c09Val{V: h.val(), Def: 1}
+		if h.intn(3) == 0 {
+			return [][]c09Val{{a}, {{Null: true, Def: 1}}}
+		}
+		return [][]c09Val{{a}, {{V: h.val(), Def: 2}}}
+	case "repgroup":
+		n := h.intn(4)
+		if n == 0 {
+			return [][]c09Val{{{Null: true}}, {{Null: true}}}
+		}
+		as, bs := make([]c09Val, n), make([]c09Val, n)
+		for e := 0; e < n; e++ {
+			as[e] = c09Val{V: h.val(), Rep: rep(e), Def: 1}
+			if h.intn(3) == 0 {
+				bs[e] = c09Val{Null: true, Rep: rep(e), Def: 1}
+			} else {
+				bs[e] = c09Val{V: h.val(), Rep: rep(e), Def: 2}
+			}
+		}
+		return [][]c09Val{as, bs}
+	case "rep2":
+		n := h.intn(3)
+		if n == 0 {
+			return [][]c09Val{{{Null: true}}}
+		}
+		var vs []c09Val
+		for o := 0; o < n; o++ {
+			m := h.intn(3)
+			if m == 0 {
+				vs = append(vs, c09Val{Null: true, Rep: rep(o), Def: 1})
+				continue
+			}
+			for i := 0; i < m; i++ {
+				r := 2
+				if i == 0 {
+					r = rep(o)
+				}
+				vs = append(vs, c09Val{V: h.val(), Rep: r, Def: 2})
+			}
+		}
+		return [][]c09Val{vs}
+	}
+	return nil
+}
+
+func c09SchemaOf(cs *c09Case) *c09Schema { return c09NewSchema(cs.Cols, cs.Extras, cs.ExtraSeed) }
+
+func c09NewSchema(cols []c09Col, extras []c09Extra, extraSeed int64) *c09Schema {
+	s := &c09Schema{cols: cols, extras: extras, extraSeed: extraSeed, keyLeaf: make([]int, len(cols))}
 	for j, col := range cols {
 		name := fmt.Sprintf("k%d", j)
+		f := c09Field{name: name, role: c09RoleKey, idx: j, leaves: []c09LeafDef{{path: []string{name}}}}
 		if col.Optional {
-			g[name] = parquet.Optional(parquet.Int(64))
+			f.node = parquet.Optional(parquet.Int(64))
+			f.leaves[0].maxDef = 1
 		} else {
-			g[name] = parquet.Int(64)
+			f.node = parquet.Int(64)
 		}
+		s.fields = append(s.fields, f)
 		var sc parquet.SortingColumn
 		if col.Desc {
 			sc = parquet.Descending(name)
@@ -215,30 +426,103 @@ func c09NewSchema(cols []c09Col) *c09Schema {
 		}
 		s.sorting = append(s.sorting, sc)
 	}
-	// payload columns sort after the key columns by name
-	g["p_in"] = parquet.Int(64)
-	g["p_seq"] = parquet.Int(64)
-	g["p_tag"] = parquet.String() // a byte array payload: "<input>:<seq>:<key>"
+	s.fields = append(s.fields,
+		c09Field{name: "p_in", role: c09RoleIn, node: parquet.Int(64), leaves: []c09LeafDef{{path: []string{"p_in"}}}},
+		c09Field{name: "p_seq", role: c09RoleSeq, node: parquet.Int(64), leaves: []c09LeafDef{{path: []string{"p_seq"}}}},
+		// a byte array payload: "<input>:<seq>:<key>"
+		c09Field{name: "p_tag", role: c09RoleTag, node: parquet.String(), leaves: []c09LeafDef{{path: []string{"p_tag"}, str: true}}})
+	for e, x := range extras {
+		node, leaves, ok := c09ExtraField(x.Name, x.Shape)
+		if !ok {
+			s.bad = fmt.Sprintf("unknown shape %q of the extra column %q", x.Shape, x.Name)
+			continue
+		}
+		s.fields = append(s.fields, c09Field{name: x.Name, role: c09RoleExtra, idx: e, shape: x.Shape, node: node, leaves: leaves})
+	}
+	sort.SliceStable(s.fields, func(a, b int) bool { return s.fields[a].name < s.fields[b].name })
+	g := parquet.Group{}
+	for i := range s.fields {
+		f := &s.fields[i]
+		g[f.name] = f.node
+		f.first = s.numLeaves
+		switch f.role {
+		case c09RoleKey:
+			s.keyLeaf[f.idx] = f.first
+		case c09RoleIn:
+			s.inLeaf = f.first
+		case c09RoleSeq:
+			s.seqLeaf = f.first
+		case c09RoleTag:
+			s.tagLeaf = f.first
+		}
+		s.numLeaves += len(f.leaves)
+	}
 	s.schema = parquet.NewSchema("c09", g)
+	// the leaves the library derives from the nodes are the ones rows are built for
+	columns := s.schema.Columns()
+	if len(columns) != s.numLeaves && s.bad == "" {
+		s.bad = fmt.Sprintf("the schema has %d leaf columns %v, the harness expects %d", len(columns), columns, s.numLeaves)
+	}
+	for _, f := range s.fields {
+		for l, def := range f.leaves {
+			if s.bad != "" {
+				break
+			}
+			ci := f.first + l
+			if strings.Join(columns[ci], ".") != strings.Join(def.path, ".") {
+				s.bad = fmt.Sprintf("leaf column %d of the schema is %v, the harness expects %v", ci, columns[ci], def.path)
+				break
+			}
+			lc, ok := s.schema.Lookup(def.path...)
+			if !ok || lc.ColumnIndex != ci || lc.MaxRepetitionLevel != def.maxRep || lc.MaxDefinitionLevel != def.maxDef {
+				s.bad = fmt.Sprintf("leaf column %v: Lookup = (found %v, column %d, max repetition level %d, max definition level %d), the harness expects column %d, levels %d and %d",
+					def.path, ok, lc.ColumnIndex, lc.MaxRepetitionLevel, lc.MaxDefinitionLevel, ci, def.maxRep, def.maxDef)
+			}
+		}
+	}
 	s.compare = s.schema.Comparator(s.sorting...)
 	return s
 }
 
+func c09StrOf(v int64) []byte { return []byte("s" + strconv.FormatInt(v, 10)) }
+
 func (s *c09Schema) row(key c09Key, in, seq int) parquet.Row {
-	n := len(s.cols)
-	row := make(parquet.Row, 0, n+3)
-	for j, col := range s.cols {
-		switch {
-		case col.Optional && key[j] == nil:
-			row = append(row, parquet.NullValue().Level(0, 0, j))
-		case col.Optional:
-			row = append(row, parquet.Int64Value(*key[j]).Level(0, 1, j))
+	row := make(parquet.Row, 0, s.numLeaves+4)
+	for _, f := range s.fields {
+		ci := f.first
+		switch f.role {
+		case c09RoleKey:
+			col, k := s.cols[f.idx], key[f.idx]
+			switch {
+			case col.Optional && k == nil:
+				row = append(row, parquet.NullValue().Level(0, 0, ci))
+			case col.Optional:
+				row = append(row, parquet.Int64Value(*k).Level(0, 1, ci))
+			default:
+				row = append(row, parquet.Int64Value(*k).Level(0, 0, ci))
+			}
+		case c09RoleIn:
+			row = append(row, parquet.Int64Value(int64(in)).Level(0, 0, ci))
+		case c09RoleSeq:
+			row = append(row, parquet.Int64Value(int64(seq)).Level(0, 0, ci))
+		case c09RoleTag:
+			row = append(row, parquet.ByteArrayValue([]byte(c09Tag(in, seq, key))).Level(0, 0, ci))
 		default:
-			row = append(row, parquet.Int64Value(*key[j]).Level(0, 0, j))
+			vals := c09ExtraVals(f.shape, c09NewHash(s.extraSeed, in, seq, f.idx))
+			for l, def := range f.leaves {
+				for _, x := range vals[l] {
+					switch {
+					case x.Null:
+						row = append(row, parquet.NullValue().Level(x.Rep, x.Def, ci+l))
+					case def.str:
+						row = append(row, parquet.ByteArrayValue(c09StrOf(x.V)).Level(x.Rep, x.Def, ci+l))
+					default:
+						row = append(row, parquet.Int64Value(x.V).Level(x.Rep, x.Def, ci+l))
+					}
+				}
+			}
 		}
 	}
-	row = append(row, parquet.Int64Value(int64(in)).Level(0, 0, n), parquet.Int64Value(int64(seq)).Level(0, 0, n+1),
-		parquet.ByteArrayValue([]byte(c09Tag(in, seq, key))).Level(0, 0, n+2))
 	return row
 }
 
@@ -260,37 +544,80 @@ type c09Out struct {
 }
 
 func (s *c09Schema) decode(row parquet.Row) c09Out {
-	n := len(s.cols)
-	o := c09Out{In: -1, Seq: -1, Key: make(c09Key, n)}
-	if len(row) != n+3 {
-		o.Bad = fmt.Sprintf("row has %d values, want %d: %v", len(row), n+3, row)
+	o := c09Out{In: -1, Seq: -1, Key: make(c09Key, len(s.cols))}
+	// the values of a row, per leaf column: columns ascending, the values of a column adjacent
+	start := make([]int, s.numLeaves+1)
+	at := 0
+	for ci := 0; ci < s.numLeaves; ci++ {
+		start[ci] = at
+		for at < len(row) && row[at].Column() == ci {
+			at++
+		}
+	}
+	start[s.numLeaves] = at
+	if at != len(row) {
+		o.Bad = fmt.Sprintf("value %d of the row has column index %d (the values of a row are ordered by column, %d leaf columns): %v", at, row[at].Column(), s.numLeaves, row)
 		return o
 	}
-	seen := make([]bool, n+3)
-	tag := ""
-	for _, v := range row {
-		ci := v.Column()
-		if ci < 0 || ci >= n+3 || seen[ci] {
-			o.Bad = fmt.Sprintf("row with unexpected column index %d: %v", ci, row)
+	one := func(ci int, what string) (parquet.Value, bool) {
+		if n := start[ci+1] - start[ci]; n != 1 {
+			o.Bad = fmt.Sprintf("the row has %d values in leaf column %d (%s), want 1: %v", n, ci, what, row)
+			return parquet.Value{}, false
+		}
+		return row[start[ci]], true
+	}
+	for j := range s.cols {
+		v, ok := one(s.keyLeaf[j], "sorting column")
+		if !ok {
 			return o
 		}
-		seen[ci] = true
-		switch {
-		case ci < n:
-			if !v.IsNull() {
-				x := v.Int64()
-				o.Key[ci] = &x
-			}
-		case ci == n:
-			o.In = int(v.Int64())
-		case ci == n+1:
-			o.Seq = int(v.Int64())
-		default:
-			tag = string(v.ByteArray())
+		if !v.IsNull() {
+			x := v.Int64()
+			o.Key[j] = &x
 		}
 	}
+	vin, ok1 := one(s.inLeaf, "p_in")
+	vseq, ok2 := one(s.seqLeaf, "p_seq")
+	vtag, ok3 := one(s.tagLeaf, "p_tag")
+	if !ok1 || !ok2 || !ok3 {
+		return o
+	}
+	if vin.IsNull() || vseq.IsNull() || vtag.IsNull() {
+		o.Bad = fmt.Sprintf("row with a null payload: %v", row)
+		return o
+	}
+	o.In, o.Seq = int(vin.Int64()), int(vseq.Int64())
+	tag := string(vtag.ByteArray())
 	if want := c09Tag(o.In, o.Seq, o.Key); tag != want {
 		o.Bad = fmt.Sprintf("the payload of the row is %q, the row written was %q", tag, want)
+		return o
+	}
+	for _, f := range s.fields {
+		if f.role != c09RoleExtra {
+			continue
+		}
+		want := c09ExtraVals(f.shape, c09NewHash(s.extraSeed, o.In, o.Seq, f.idx))
+		for l, def := range f.leaves {
+			ci := f.first + l
+			got := row[start[ci]:start[ci+1]]
+			same := len(got) == len(want[l])
+			for e := 0; same && e < len(got); e++ {
+				g, w := got[e], want[l][e]
+				switch {
+				case g.IsNull() != w.Null || g.RepetitionLevel() != w.Rep || g.DefinitionLevel() != w.Def:
+					same = false
+				case w.Null:
+				case def.str:
+					same = string(g.ByteArray()) == string(c09StrOf(w.V))
+				default:
+					same = g.Int64() == w.V
+				}
+			}
+			if !same {
+				o.Bad = fmt.Sprintf("column %s (%s) of row %d of input %d holds %v, the row written held %+v", strings.Join(def.path, "."), f.shape, o.Seq, o.In, got, want[l])
+				return o
+			}
+		}
 	}
 	return o
 }
@@ -546,7 +873,7 @@ func c09ReadersRequest(cs *c09Case, used []int) string {
 }
 
 func c09CheckReaders(c *core.Ctx, cs *c09Case) bool {
-	s := c09NewSchema(cs.Cols)
+	s := c09SchemaOf(cs)
 	out, used, fail := c09Readers(s, cs)
 	if fail != "" {
 		c.Violation("merge-readers-failed", fmt.Sprintf("MergeRowReaders over %d sorted readers: %s", len(cs.Inputs), fail), cs)
@@ -576,7 +903,7 @@ func c09CheckReaders(c *core.Ctx, cs *c09Case) bool {
 // ---- kind "dedupe" --------------------------------------------------------
 
 func c09CheckDedupe(c *core.Ctx, cs *c09Case) bool {
-	s := c09NewSchema(cs.Cols)
+	s := c09SchemaOf(cs)
 	if len(cs.Inputs) != 1 {
 		return true
 	}
@@ -849,8 +1176,9 @@ func c09CanonPlan(ans string) string {
 	return c09PlanTok(plan)
 }
 
-// c09SortingLeaf: index of the leaf column of sorting column j (the schema
-// columns are sorted by name: k0, k1, ..., p_in, p_seq, p_tag).
+// sortingLeaf: index of the leaf column of sorting column j as the library
+// reports it (the schema columns are sorted by name; extra columns may lie
+// before and between the sorting columns).
 func (s *c09Schema) sortingLeaf(j int) int {
 	name := fmt.Sprintf("k%d", j)
 	for i, path := range s.schema.Columns() {
@@ -881,8 +1209,8 @@ func c09ProbeIndexes(s *c09Schema, groups []parquet.RowGroup, info *c09GroupsInf
 		info.layouts[i] = make([][]int, len(s.cols))
 		for j := range s.cols {
 			leaf := s.sortingLeaf(j)
-			if leaf != j && info.indexOdd == "" {
-				info.indexOdd = fmt.Sprintf("sorting column %d is leaf column %d", j, leaf)
+			if leaf != s.keyLeaf[j] && info.indexOdd == "" {
+				info.indexOdd = fmt.Sprintf("sorting column %d is leaf column %d, the harness writes it as leaf column %d", j, leaf, s.keyLeaf[j])
 			}
 			if numRows == 0 {
 				continue
@@ -967,7 +1295,7 @@ func c09BuildGroups(s *c09Schema, cs *c09Case) ([]parquet.RowGroup, int, error) 
 			if len(rgs) != 1 {
 				return nil, 0, fmt.Errorf("input file %d has %d row groups", i, len(rgs))
 			}
-			if ci, err := rgs[0].ColumnChunks()[0].ColumnIndex(); err == nil && ci != nil && ci.NumPages() > maxPages {
+			if ci, err := rgs[0].ColumnChunks()[s.keyLeaf[0]].ColumnIndex(); err == nil && ci != nil && ci.NumPages() > maxPages {
 				maxPages = ci.NumPages()
 			}
 			groups = append(groups, rgs[0])
@@ -1061,7 +1389,7 @@ func c09RefineRequest(cs *c09Case, info *c09GroupsInfo) string {
 }
 
 func c09CheckGroups(c *core.Ctx, cs *c09Case, info *c09GroupsInfo) bool {
-	s := c09NewSchema(cs.Cols)
+	s := c09SchemaOf(cs)
 	read, written, inf, fail := c09Groups(s, cs)
 	if info != nil {
 		*info = inf
@@ -1156,6 +1484,16 @@ func c09Valid(cs *c09Case) bool {
 	if len(cs.Cols) == 0 {
 		return false
 	}
+	names := map[string]bool{"p_in": true, "p_seq": true, "p_tag": true}
+	for j := range cs.Cols {
+		names[fmt.Sprintf("k%d", j)] = true
+	}
+	for _, x := range cs.Extras {
+		if _, _, ok := c09ExtraField(x.Name, x.Shape); !ok || x.Name == "" || names[x.Name] {
+			return false
+		}
+		names[x.Name] = true
+	}
 	for _, in := range cs.Inputs {
 		for i, k := range in {
 			if len(k) != len(cs.Cols) {
@@ -1179,6 +1517,11 @@ func c09Check(c *core.Ctx, cs *c09Case) bool { return c09CheckInfo(c, cs, nil) }
 func c09CheckInfo(c *core.Ctx, cs *c09Case, info *c09GroupsInfo) bool {
 	if !c09Valid(cs) {
 		return true
+	}
+	if s := c09SchemaOf(cs); s.bad != "" {
+		c09Fail = "violation:schema-layout"
+		c.Violation("schema-layout", "parquet.NewSchema over a parquet.Group: "+s.bad, cs)
+		return false
 	}
 	switch cs.Kind {
 	case "readers":
@@ -1211,6 +1554,7 @@ func c09Clone(cs *c09Case) *c09Case {
 	}
 	t.Backing = append([]string(nil), cs.Backing...)
 	t.Batches = append([]int(nil), cs.Batches...)
+	t.Extras = append([]c09Extra(nil), cs.Extras...)
 	return &t
 }
 
@@ -1264,6 +1608,15 @@ func c09Shrink(c *core.Ctx, cs *c09Case) *c09Case {
 					cur, changed = t, true
 					i--
 				}
+			}
+		}
+		// extra columns
+		for i := 0; i < len(cur.Extras); i++ {
+			t := c09Clone(cur)
+			t.Extras = append(t.Extras[:i], t.Extras[i+1:]...)
+			if fails(t) {
+				cur, changed = t, true
+				i--
 			}
 		}
 		// scripts
@@ -1324,9 +1677,9 @@ func c09Shrink(c *core.Ctx, cs *c09Case) *c09Case {
 
 // c09Stats: the comparisons of the refined plan with the model
 var c09Stats struct {
-	compared, sliced, tooBig, converted int
+	compared, sliced, tooBig, converted     int
 	bufferCuts, bufferOnePage, bufferInputs int
-	indexOdd string
+	indexOdd                                string
 }
 
 // c09RefineCase records the coverage of one plan comparison.
@@ -1671,12 +2024,12 @@ func c09PageStarts(cols []c09Col, pageBuf, n int) []int {
 	if st, ok := c09PageStartsCache[key]; ok {
 		return st
 	}
-	s := c09NewSchema(cols)
+	s := c09NewSchema(cols, nil, 0)
 	b := &c09Builder{intn: func(int) int { return 0 }, step: 1}
 	b.rise(n)
 	var st []int
 	if f, err := c09WriteFile(s, s.rows(0, b.keys(cols)), pageBuf); err == nil && len(f.RowGroups()) == 1 {
-		if oi, err := f.RowGroups()[0].ColumnChunks()[0].OffsetIndex(); err == nil && oi != nil {
+		if oi, err := f.RowGroups()[0].ColumnChunks()[s.keyLeaf[0]].OffsetIndex(); err == nil && oi != nil {
 			for p := 0; p < oi.NumPages(); p++ {
 				st = append(st, int(oi.FirstRowIndex(p)))
 			}
@@ -1698,9 +2051,9 @@ func c09GenTie(intn func(int) int, shape string, desc bool) *c09Case {
 		rowsPerPage = st[1]
 	}
 	nb := func() *c09Builder { return &c09Builder{intn: intn, step: 1 + intn(3), v: 1000} }
-	long := func() int { return rowsPerPage + 1 + intn(5*rowsPerPage) }          // a run that spans a page boundary
-	lone := func() int { return 1100 + intn(1500) }                              // rows of a lone stretch worth slicing
-	short := func() int { return 1 + intn(40) }                                  // a run shorter than a page
+	long := func() int { return rowsPerPage + 1 + intn(5*rowsPerPage) } // a run that spans a page boundary
+	lone := func() int { return 1100 + intn(1500) }                     // rows of a lone stretch worth slicing
+	short := func() int { return 1 + intn(40) }                         // a run shorter than a page
 	loneOrNot := func() int {
 		if intn(5) == 0 {
 			return 300 + intn(900) // around the threshold of 1024 rows
@@ -2013,7 +2366,7 @@ func runC09(c *core.Ctx) {
 		if total > 80 {
 			return
 		}
-		s := c09NewSchema(cs.Cols)
+		s := c09SchemaOf(cs)
 		out, used, fail := c09Readers(s, cs)
 		if fail != "" || len(used) > 200 {
 			return
